@@ -477,6 +477,23 @@ func (e *Enc) header() string {
 			}
 		}
 	}
+	if e.usesUncomparable {
+		sb.WriteString("(declare-fun uncomparable_tag (Int) Bool)\n(assert (not (uncomparable_tag 0)))\n")
+		for _, k := range tks {
+			ct := e.typeOf[k]
+			if ct == nil {
+				continue
+			}
+			if _, isI := ct.Underlying().(*types.Interface); isI {
+				continue
+			}
+			if types.Comparable(ct) {
+				fmt.Fprintf(&sb, "(assert (not (uncomparable_tag id_%s)))\n", mangle(k))
+			} else {
+				fmt.Fprintf(&sb, "(assert (uncomparable_tag id_%s))\n", mangle(k))
+			}
+		}
+	}
 	// spec definitions always; spec axioms only when their trigger symbols are used by this function's encoding
 	body := strings.Join(e.lines, "\n")
 	for _, o := range e.obls {
